@@ -3,7 +3,8 @@
 
 def gen_heuristic(rng, kinds=('const', 'zero', 'exact', 'slack', 'slack_abs', 'noisy')):
     k = rng.choice(kinds)
-    return dict(kind=k, slack=rng.choice((0.5, 2.0, 1.0)), at_abs=rng.choice((0.0, 0.0, 3.0, -2.0, 7.5)),
+    # (absorbing states are worth 0 whatever the heuristic says there: any finite number, or the trivial upper bound +inf)
+    return dict(kind=k, slack=rng.choice((0.5, 2.0, 1.0)), at_abs=rng.choice((0.0, 0.0, 3.0, -2.0, 7.5, 7.5, float('inf'))),
                 noise_seed=rng.randrange(1 << 30))
 
 
